@@ -65,6 +65,46 @@ def replay(case):
         r1 = em.DailyReportingData.from_series(alt["observed"] if "observed" in alt else None, temp, is_electricity_data=True)
         p0, p1 = m.predict(r0, ignore_disqualification=True), m.predict(r1, ignore_disqualification=True)
         bad = _cmp(p0, p1, ["predicted", "predicted_unc", "heating_load", "cooling_load"])
+    elif fam == "daily_from_hourly":
+        # the daily data class fed with ONE hourly frame (usage and temperature per hour): hours whose usage is exactly zero are blanked for
+        # electricity -- that must not touch the hour's temperature, so the day's mean temperature and prediction stay what they are
+        from bounded.C01_roundtrip import fitted
+        import opendsm.eemeter as em
+        from bounded.hourly_common import hourly_frame
+        m, _, _ = fitted("daily", "current")
+        df = hourly_frame("UTC").loc["2017-02-01":"2017-05-31"].copy()          # the sample daily model was fitted on a UTC-stamped meter
+        df["temperature"] = df["temperature"] + 9.0 * np.sin(np.arange(len(df)) / 24.0 * 2 * np.pi)      # a diurnal swing, so that WHICH hours count matters
+        alt = df.copy()
+        if case["alter"] == "zeros":
+            z = np.random.default_rng(5).choice(len(alt), size=len(alt) // 12, replace=False)
+            alt.iloc[z, alt.columns.get_loc("observed")] = 0.0
+        elif case["alter"] == "scaled_zero":
+            alt["observed"] = alt["observed"] * 0.0
+        else:
+            alt = ALTER[case["alter"]](alt, rng)
+        r0 = em.DailyReportingData(df, is_electricity_data=True)
+        r1 = em.DailyReportingData(alt, is_electricity_data=True)
+        p0, p1 = m.predict(r0, ignore_disqualification=True), m.predict(r1, ignore_disqualification=True)
+        bad = _cmp(p0, p1, ["predicted", "heating_load", "cooling_load"])
+        t0, t1 = r0.df["temperature"], r1.df["temperature"]
+        common = t0.index.intersection(t1.index)
+        if not np.array_equal(t0[common].values, t1[common].values, equal_nan=True):
+            bad.append(f"the data object's daily temperature depends on the usage column ({int((t0[common].values != t1[common].values).sum())} days differ)")
+    elif fam == "hourly_outage":
+        # a baseline that covers every month and weekday but has a meter outage over one (month, weekday) combination (the Saturdays of June)
+        import opendsm.eemeter as em
+        from bounded.hourly_common import hourly_frame, _CACHE
+        key = ("outage_model", case["zone"])
+        if key not in _CACHE:
+            base = hourly_frame(case["zone"]).loc["2016-01-01":"2016-12-31"].copy()
+            sat_june = (base.index.month == 6) & (base.index.dayofweek == 5)
+            base.loc[sat_june, "observed"] = np.nan
+            _CACHE[key] = em.HourlyModel(settings={"seed": 2}).fit(em.HourlyBaselineData(base, is_electricity_data=True), ignore_disqualification=True)
+        m = _CACHE[key]
+        df = hourly_frame(case["zone"]).loc["2017-05-20":"2017-07-10"].copy()
+        p0 = m.predict(em.HourlyReportingData(df.copy(), is_electricity_data=True), ignore_disqualification=True)
+        p1 = m.predict(em.HourlyReportingData(ALTER[case["alter"]](df.copy(), rng), is_electricity_data=True), ignore_disqualification=True)
+        bad = _cmp(p0, p1, ["predicted"])
     elif fam == "caltrack_hourly":
         from bounded.C01_roundtrip import fitted
         from opendsm.eemeter.models.hourly_caltrack.data import HourlyReportingData as CTR
@@ -89,7 +129,9 @@ def run(tier="quick", seed=0):
     b = Bounded("C05", "C05.paired", MODULE,
                 "real fitted models (hourly: full-year America/Chicago baseline; daily: sample fit; thorough: + CalTRACK hourly) predicting "
                 "paired reporting sets that differ only in observed usage {scaled, shuffled, 35% NaN, all NaN, column absent} over spans "
-                "with and without a DST change; every prediction produced in both must be bit-identical; distinct = (family, span, alteration)",
+                "with and without a DST change; the daily data class fed with one hourly frame whose usage has exact zeros / is scaled by zero (electricity: zeros are blanked); "
+                "an hourly model whose full-year baseline has a meter outage over the Saturdays of June; every prediction produced in both must be bit-identical; "
+                "distinct = (family, span, alteration)",
                 known_findings=load_known("C05"))
     spans = [("America/Chicago", "2017-03-05", "2017-03-19"), ("America/Chicago", "2017-06-03", "2017-06-09")]
     if tier == "thorough":
@@ -105,6 +147,10 @@ def run(tier="quick", seed=0):
         cases.append({"family": "hourly_solar", "zone": "America/Chicago", "start": "2017-05-01", "end": "2017-07-15", "alter": alt, "seed": seed})
     for alt in (ALTER if tier == "thorough" else ("replaced", "all_nan", "scaled")):
         cases.append({"family": "caltrack_hourly", "alter": alt, "seed": seed})
+    for alt in ("zeros", "scaled_zero", "partial_nan", "absent") + (("scaled", "shuffled") if tier == "thorough" else ()):
+        cases.append({"family": "daily_from_hourly", "alter": alt, "seed": seed})
+    for alt in ("all_nan", "shuffled", "absent") + (("replaced", "partial_nan") if tier == "thorough" else ()):
+        cases.append({"family": "hourly_outage", "zone": "America/Chicago", "alter": alt, "seed": seed})
     for case in cases:
         try:
             r = replay(case)
